@@ -18,6 +18,8 @@
 struct Value *_ZNK4bloc18MemberATExpression5valueERNS_7ContextE(struct MemberATExpression *this, struct Context *ctx)
 __CPROVER_requires(IS_FRESH(this, sizeof(*this)) && IS_FRESH(ctx, sizeof(*ctx)) && IS_FRESH(this->_base_MemberExpression._exp, sizeof(struct Expression)))
 __CPROVER_requires(INPUT_STATE(g_nargs, VALUE_FIELDS(&g_tab_elem)))
+/* node invariant: the only constructor passes BTM_AT (= 2) to MemberExpression (member_at.h:38) */
+__CPROVER_requires(this->_base_MemberExpression._builtin == 2)
 __CPROVER_requires(g_nargs == 1 && ARGS_PINNED && __exc == 0 && g_eval_n == 0 && __caught_n == 0 && GLOBALS_PINNED && VALID_TAG(&g_tab_elem))
 EVAL_ASSIGNS
 ENS_ONLY_RT
